@@ -10,14 +10,13 @@ from __future__ import annotations
 
 import ast
 import math
-from typing import Any, Dict, List
 
-from checks.c03 import K, spec
+from checks.c03 import K
 from checks.c08 import flat
-from sa import astq, intervals
+from sa import astq
 from sa.consteval import Folder
 from sa.defuse import Inliner
-from sa.model import AnalysisError, norm
+from sa.model import norm
 from sa.polyalg import AlgebraError
 from sa import torsion as TA
 
@@ -59,37 +58,55 @@ def check_function(chk, module: str, qual: str) -> None:
     for g, genv, gdefs in res["guards"]:
         gkey = K(fi, f"guard:{norm(g.test)[:50]}")
         try:
-            atoms = TA.guard_atoms(g.test, genv, res["alg"], gdefs)
+            tree = TA.guard_tree(g.test, genv, res["alg"], gdefs)
         except TA.NotAThreshold as ex:
             chk.error("degenerate-guard", fi.site(g), f"condition of the early return is not readable as bounds on norms: {ex}")
             continue
-        problems: List[str] = []
-        facts: List[str] = []
-        for a in atoms:
+
+        def atom_status(a):
+            """'ok' a degeneracy test within the tolerance | 'bad' | 'never' | 'always'  (+ text)"""
             if not a["monomial"]:
-                if a.get("holds"):
-                    problems.append(f"`{a['text']}` compares two constants and is always true: every input gets the fallback value")
-                continue
-            if "sign" in a:
-                continue  # a non-positive bound on a norm is never met
+                return ("always", f"`{a['text']}` compares two constants and is always true: every input gets the fallback value") if a.get("holds") else ("never", "")
+            if a.get("never"):
+                return ("never", "")  # a norm below a non-positive number
             kind, desc = TA.classify(a["monomial"], res["quantities"], res["alg"])
             c = a["c"]
             if kind == "other":
-                problems.append(f"`{a['text']}` bounds {desc}: geometries that are not degenerate get the fallback value instead of phi")
-            elif not (0 < c <= EPS_MAX):
+                return ("bad", f"`{a['text']}` bounds {desc}: geometries that are not degenerate get the fallback value instead of phi")
+            if not (0 < c <= EPS_MAX):
                 extra = ""
                 if kind == "sine" and 0 < c < 1:
                     lo = math.degrees(math.asin(c))
                     extra = f": every quadruple with a bond angle below {lo:.1f} or above {180 - lo:.1f} degrees gets the fallback value"
                 elif kind == "sine" and c >= 1:
                     extra = ": every quadruple gets the fallback value"
-                problems.append(f"`{a['text']}` accepts {desc} up to {c:.4g}, far beyond a collinearity tolerance of {EPS_MAX}{extra}")
-            else:
-                facts.append(f"{desc} < {c:.3g}")
-        found = [{"quantity": TA.classify(a["monomial"], res["quantities"], res["alg"])[1] if a["monomial"] else "constant", "bound": a["c"]} for a in atoms][:4]
-        if problems:
+                return ("bad", f"`{a['text']}` accepts {desc} up to {c:.4g}, far beyond a collinearity tolerance of {EPS_MAX}{extra}")
+            return ("ok", f"{desc} < {c:.3g}")
+
+        def status(t):
+            """(verdict, facts, problems) of a sub-condition: `or` fires where any child fires, `and` only where all do."""
+            if t[0] == "atom":
+                v, txt = atom_status(t[1])
+                return v, ([txt] if v == "ok" else []), ([txt] if v in ("bad", "always") else [])
+            subs = [status(c) for c in t[1]]
+            vs = [x[0] for x in subs]
+            facts = [f for x in subs for f in x[1]]
+            probs = [p for x in subs for p in x[2]]
+            if t[0] == "or":
+                if "bad" in vs or "always" in vs:
+                    return "bad" if "bad" in vs else "always", facts, probs
+                return ("ok" if "ok" in vs else "never"), facts, probs
+            if "never" in vs:
+                return "never", [], []
+            if "ok" in vs:
+                return "ok", facts, []  # the conjunction fires only inside the region of its tight member
+            return ("always" if all(v == "always" for v in vs) else "bad"), facts, probs
+
+        verdict, facts, problems = status(tree)
+        found = [{"quantity": TA.classify(a["monomial"], res["quantities"], res["alg"])[1] if a["monomial"] else "constant", "bound": a["c"]} for a in TA.tree_atoms(tree)][:4]
+        if verdict in ("bad", "always"):
             chk.violation("degenerate-guard", fi.site(g), "early return under `" + norm(g.test)[:80] + "` is not a collinearity test with a tolerance <= " + str(EPS_MAX) + ": " + "; ".join(problems[:2]), gkey, expected=f"|b_i x b_j| (or the sine of the bond angle) < c with c <= {EPS_MAX}", found=found)
-        elif not facts:
+        elif verdict == "never":
             chk.error("degenerate-guard", fi.site(g), f"early return under `{norm(g.test)[:80]}` bounds no norm from above by a positive number: not readable as a degeneracy test")
         else:
             chk.ok("degenerate-guard", fi.site(g), "early return only when the geometry is degenerate: " + " or ".join(facts))
@@ -201,9 +218,12 @@ def check_users(chk) -> None:
 def run(chk) -> None:
     chk.explanation = (
         "Polynomial normal forms (exact rational arithmetic, positive norm symbols with norm^2 -> v.v) of the two atan2 arguments of each torsion function, obtained by reading the function body "
-        "statement by statement, are compared with the IUPAC closed form: y * x_ref - x * y_ref must be the zero polynomial and x a positive multiple of x_ref. That decides the value for every "
-        "non-degenerate quadruple at once (hence range, reversal symmetry, mirror antisymmetry, rigid invariance). Degenerate guards must be collinearity tests with a tolerance <= 1e-3; the "
-        "atan2 value must be returned unchanged; users (chi, cis/trans, BPh splits, chi class, inter-stem, backbone tables) pass IUPAC atom quadruples in order with consistent units."
+        "statement by statement (new module-level helpers inlined, unpacked comprehensions written out), are compared with the IUPAC closed form: y * x_ref - x * y_ref must be the zero polynomial and x a "
+        "positive multiple of x_ref. That decides the value for every non-degenerate quadruple at once (hence range, reversal symmetry, mirror antisymmetry, rigid invariance). Every early return before the "
+        "atan2 is brought to bounds Q < c on monomials in norms (thresholds folded numerically, through np.sin / arcsin / degrees / min / not): Q must be the norm of a cross product of consecutive bonds, the sine "
+        "of a bond angle or a bond length, and c <= 1e-3. The statements after the atan2 are evaluated on representative values and proved to return the value unchanged. Users are decided by evaluation of "
+        "the fragments on stubs: chi of Residue3D on 12 one-letter names x 11 sets of atoms, chi_class on one chi per cell, the tertiary_v2 torsion table on five stub-segment scenarios, against the IUPAC atom "
+        "table; cis/trans, BPh splits and inter-stem units as before."
     )
     chk.trusted = ["CPython ast", "numpy cross/dot/norm/arctan2 semantics", "IUPAC-IUB torsion table (spec/iupac_torsions.json)"]
     chk.assumptions = ["non-degenerate input (no three consecutive points collinear)", "floating-point error is not decided"]
@@ -218,7 +238,8 @@ def run(chk) -> None:
 MANIFEST_ENTRY = {
     "text": "Exact algebraic decision on the current source: for both torsion implementations the atan2 arguments, as polynomials in the 12 coordinates (with positive norm symbols), satisfy y * x_ref = x * y_ref "
     "with x a positive multiple of x_ref, where (y_ref, x_ref) is the IUPAC closed form - a proof over all non-degenerate point quadruples, which constructed-angle sampling can only approximate. "
-    "tertiary.py = IUPAC; tertiary_v2.py = exact negation (known finding F18, pinned by a test, reported as KNOWN-FINDING). Degenerate guards, returned value, users' atom quadruples and units are checked structurally.",
+    "tertiary.py = IUPAC; tertiary_v2.py = exact negation (known finding F18, pinned by a test, reported as KNOWN-FINDING). Degenerate guards are decided as bounds on norm monomials with numerically folded thresholds; "
+    "the returned value, the atom quadruples of chi / the backbone table and the units of chi_class are decided by evaluating the fragments on input-class representatives (stub residues and segments).",
     "note": "Trusted: numpy primitives; the algebra engine (sa/polyalg.py). Not decided: degenerate branches (0.0 vs NaN), floating-point error.",
     "technique": "static analysis: abstract interpretation of straight-line vector code into polynomial normal forms + polynomial identity check against the IUPAC closed form",
 }
